@@ -5,7 +5,7 @@ open Lean
 namespace NQ.Drv
 open NQ.Text
 
-def errName : TErr → String
+def textErrName : TErr → String
   | .syntax => "NetQASMSyntaxError" | .value => "ValueError" | .key => "KeyError"
   | .assertion => "AssertionError" | .type_ => "TypeError" | .index => "IndexError"
   | .runtime => "RuntimeError" | .unsupported => "unsupported"
@@ -23,7 +23,7 @@ def handleText (op : String) (j : Json) : Option Json :=
     let ls ← ls.toList.mapM jStr?
     match parseText T Gen.syms Gen.genericNames Gen.replaceExceptions (ls.map String.toList) with
     | .ok is => pure (Json.mkObj [("is", Json.arr (is.map instrToJson).toArray)])
-    | .error e => pure (Json.mkObj [("err", Json.str (errName e))])
+    | .error e => pure (Json.mkObj [("err", Json.str (textErrName e))])
   else none
 
 end NQ.Drv
